@@ -478,6 +478,24 @@ pub fn focus_position(rng: &mut Rng, kind: usize) -> Option<([u8; 64], bool, usi
             c[n] = t + 1 + rng.below((6 - t) as usize) as u8 + 6 * me;
         }
     }
+    // for a pull lead: often put an enemy piece that is NOT weaker (same type, or stronger) next to the
+    // square about to be vacated, together with a stronger piece of the mover that could push it in -
+    // the displacement into the vacated square is then a push start, not a pull
+    if kind == 1 && t < 6 && rng.chance(0.4) {
+        let cand: Vec<usize> = neighbours(sq).into_iter().filter(|&n| n != dest).collect();
+        if !cand.is_empty() {
+            let n = cand[rng.below(cand.len())];
+            let te = if rng.chance(0.7) { t } else { t + rng.below((6 - t) as usize) as u8 };
+            c[n] = te + 6 * (1 - me);
+            if te < 6 {
+                let around: Vec<usize> = neighbours(n).into_iter().filter(|&m| m != sq && m != dest).collect();
+                if !around.is_empty() {
+                    let m = around[rng.below(around.len())];
+                    c[m] = te + 1 + rng.below((6 - te) as usize) as u8 + 6 * me;
+                }
+            }
+        }
+    }
     // second ring: neighbours of the first ring and of the destination
     let ring1: Vec<usize> = involved.clone();
     for &n in ring1.iter() {
